@@ -10,7 +10,8 @@ escape_html, which removes both quote characters (C18.d); plain-text fall-backs 
 text/plain (C18.e); image errors carry the requested content type and a default size (C18.f);
 every literal status code has a reason phrase (C18.g).
 Added in round 4: no client-visible error is built from the text of a caught I/O level exception
-except through the helper that strips file references (C18.o)."""
+except through the helper that strips file references (C18.o).
+Added in round 5: every KML href is escaped (C18.p)."""
 import ast
 import re
 
